@@ -84,6 +84,11 @@ func ToCatalog(rows []any, ident string, identRight string, joinExpr sqlparser.E
 			switch reader.(type) {
 			case int, int8, int16, int32, int64, uint, uint8, uint16, uint32, uint64, float32:
 				key = compare.As[float64](reader)
+			case float64:
+				// -0 = 0, but they print differently
+				if reader == float64(0) {
+					key = float64(0)
+				}
 			}
 			// length-prefixed, so that ("p-", "q") and ("p", "-q") get different keys
 			value := fmt.Sprintf("%v", key)
